@@ -1099,6 +1099,18 @@ class PendingClassDef(_PendingCompoundStmt[ClassDef]):
     def get_result(self) -> list[expr]:
         return_list: list[expr] = []
 
+        # decorators are evaluated first (top-down) and applied last (bottom-up)
+        decorator_names: list[Name] = []
+        for dec_expr in self.node.decorator_list:
+            decorator_name = Name(id=ol_name(OL_CLASS_DECORATOR))
+            return_list.append(
+                NamedExpr(
+                    target=decorator_name,
+                    value=expr_transf(self.nsp, dec_expr),
+                )
+            )
+            decorator_names.append(decorator_name)
+
         class_bases = [expr_transf(self.nsp, _expr) for _expr in self.node.bases]
 
         metaclass_expr = None
@@ -1206,6 +1218,13 @@ class PendingClassDef(_PendingCompoundStmt[ClassDef]):
             ],
         )
         return_list.append(load_class)
+
+        if decorator_names:
+            decorated: expr = self.nsp.get_load_name(self.node.name)
+            for decorator_name in reversed(decorator_names):
+                decorated = Call(func=decorator_name, args=[decorated], keywords=[])
+            return_list.append(self.nsp.get_assign(self.node.name, decorated))
+
         return return_list
 
 
